@@ -11,6 +11,18 @@ import (
 
 type raw string
 
+// formatEnumMemberName turns the name of an enum member into a valid
+// python identifier.
+func formatEnumMemberName(name string) string {
+	return strings.Map(func(r rune) rune {
+		if r == '_' || (r >= '0' && r <= '9') || (r >= 'A' && r <= 'Z') || (r >= 'a' && r <= 'z') {
+			return r
+		}
+
+		return '_'
+	}, tools.UpperSnakeCase(name))
+}
+
 func formatValue(val any) string {
 	if val == nil {
 		return "None"
@@ -151,10 +163,10 @@ func defaultValueForType(schemas ast.Schemas, typeDef ast.Type, importModule mod
 
 		referredObj, found := schemas.LocateObject(ref.ReferredPkg, ref.ReferredType)
 		if found && referredObj.Type.IsEnum() {
-			enumName := tools.UpperSnakeCase(referredObj.Type.AsEnum().Values[0].Name)
+			enumName := formatEnumMemberName(referredObj.Type.AsEnum().Values[0].Name)
 			for _, enumValue := range referredObj.Type.AsEnum().Values {
 				if enumValue.Value == typeDef.Default {
-					enumName = tools.UpperSnakeCase(enumValue.Name)
+					enumName = formatEnumMemberName(enumValue.Name)
 					break
 				}
 			}
